@@ -8,6 +8,7 @@ from spec import murmur3 as mref
 from spec import placement as ref
 from vlib.harness import EnumPart, HarnessError, hyp_part
 
+THOROUGH_SCALE = 2.0
 PID = "C22"
 TITLE = "Token-aware plans put live local replicas first without losing hosts"
 LEVEL = "exploration"
